@@ -30,6 +30,19 @@ class StubGauss(random.Random):
         return mu + sigma * self.k
 
 
+class StubGauss2(StubGauss):
+    """first draw k (the noise term of the forecast), every later draw q (the noise of a normally distributed margin)"""
+
+    def __init__(self, k, q):
+        super().__init__(k)
+        self.q = q
+        self.n = 0
+
+    def gauss(self, mu=0.0, sigma=1.0):
+        self.n += 1
+        return mu + sigma * (self.k if self.n % 2 == 1 else self.q)
+
+
 def fine(x, tick=1.0):
     k = round(x / (tick / FDEN))
     return int(k) if k * (tick / FDEN) == x and abs(k) < 2 ** 30 else -1
@@ -83,7 +96,9 @@ def fcn_cases(tier, seed):
     if tier == "quick":
         grid = rng.sample(grid, 900)
     out = []
-    for a, af, ap, k, (wF, wC, wN), (W, tr), margin, other_first, early in grid:
+    for gi, (a, af, ap, k, (wF, wC, wN), (W, tr), margin, other_first, early) in enumerate(grid):
+        normal = gi % 4 == 0          # margin type "normal": the quote is noised, the SIDE still follows the expected price
+        twin = gi % 3 == 0            # a second accessible market in the same state: one order per accessible market
         T = W + 1 if early == 0 else max(0, W - early)      # market time at the decision
         tw = min(T, W)                                       # window actually used
         if tw == 0 and ap != a:
@@ -107,10 +122,17 @@ def fcn_cases(tier, seed):
             mkts.append(market_with_history(sim, 0, "other", [300.0] * (T + 1), 300.0))
         m = market_with_history(sim, len(mkts), "m", prices, F)
         mkts.append(m)
-        ag = FCNAgent(agent_id=7, prng=StubGauss(k), simulator=sim, name="fcn")
+        mks = [m.market_id]
+        if twin:
+            m2 = market_with_history(sim, len(mkts), "m2", prices, F)
+            mkts.append(m2)
+            mks.append(m2.market_id)
+        # (normal margin: quote = expected price + 2 x 10, always above the market price when the agent should SELL)
+        ag = FCNAgent(agent_id=7, prng=StubGauss2(k, 2) if normal else StubGauss(k), simulator=sim, name="fcn")
         ag.setup(settings={"cashAmount": 1000, "assetVolume": 10, "fundamentalWeight": wF, "chartWeight": wC, "noiseWeight": wN,
-                           "noiseScale": LN2, "timeWindowSize": W, "orderMargin": margin, "marginType": "fixed",
-                           "meanReversionTime": tr}, accessible_markets_ids=[m.market_id])
+                           "noiseScale": LN2, "timeWindowSize": W, "orderMargin": 10.0 if normal else margin,
+                           "marginType": "normal" if normal else "fixed",
+                           "meanReversionTime": tr}, accessible_markets_ids=list(mks))
         st, orders = call(ag, mkts)
         # independent evaluation of the documented formula
         f_lr = (1.0 / max(tr, 1)) * math.log(F / P)
@@ -119,13 +141,13 @@ def fcn_cases(tier, seed):
         e_lr = (wF * f_lr + wC * c_lr + wN * n_lr) / (wF + wC + wN)
         exp_px = P * math.exp(e_lr * W)
         pok = True
-        for o in orders:
+        for o in ([] if normal else orders):
             want = exp_px * (1 - margin) if o.is_buy else exp_px * (1 + margin)
             pok = pok and abs(o.price - want) <= 1e-12 * abs(want)
             # shaded by the margin: a buy is quoted at or below the expected price, a sell at or above
             pok = pok and ((o.price <= exp_px * (1 + 1e-12)) if o.is_buy else (o.price >= exp_px * (1 - 1e-12)))
         out.append({"c": "fcn", "aid": 7, "wF": wF, "wC": wC, "wN": wN, "af": af, "a": a, "ap": ap, "k": k, "tr": tr, "tw": twe,
-                    "mkt": m.market_id, "ttl": W, "W": W, "t": T, "out": st, "ords": summarize(ag, orders), "pok": bool(pok)})
+                    "mkt": m.market_id, "mks": mks, "ttl": W, "W": W, "t": T, "out": st, "ords": summarize(ag, orders), "pok": bool(pok)})
     return out
 
 
